@@ -288,4 +288,243 @@ theorem scan_spec (sup : Compound → Compound → Complex → Bool) (c1 : Compo
         exact ⟨.comb c :: sk', by simp [e1], by simp [e2], e3, e4⟩
 
 
+/-! ### soundness of the walk (specified variant: `asFound = false`) -/
+
+theorem getLast_split {α : Type} : ∀ (b : List α) (d : α), b.getLast? = some d → b = b.dropLast ++ [d] := by
+  intro b
+  induction b with
+  | nil => intro d h; simp at h
+  | cons x xs ih =>
+    intro d h
+    cases xs with
+    | nil => simp at h; simp [h]
+    | cons y ys =>
+      have : (y :: ys).getLast? = some d := by simpa [List.getLast?_cons_cons] using h
+      have := ih d this
+      simp only [List.dropLast_cons_cons, List.cons_append]
+      rw [← this]
+
+theorem walk_sound (sup : Compound → Compound → Complex → Bool) (P : Compound → Prop)
+    (hsup : ∀ c d ps q, P c → sup c d ps = true → mComp d q = true → mComp c q = true) :
+    ∀ (n : Nat) (a : Complex) (prev : Option Rel) (b : Complex), a.length ≤ n →
+      (∀ c, Component.compound c ∈ a → P c) → walk false sup prev a b = true →
+      ∀ q p, LX b q p → ∃ q', LX a q' p ∧ RelOK prev q' q := by
+  intro n
+  induction n with
+  | zero =>
+    intro a prev b hl _ hw
+    have : a = [] := List.eq_nil_of_length_eq_zero (Nat.le_zero.1 hl)
+    subst this; simp [walk] at hw
+  | succ n ih =>
+    intro a prev b hl hP hw q p hb
+    obtain ⟨c0, btl, hbe⟩ : ∃ c0 btl, b = .compound c0 :: btl := by
+      match b, hb with
+      | [], hb => exact absurd hb (LX_nil _ _)
+      | .comb _ :: _, hb => exact absurd hb (LX_comb_head _ _ _ _)
+      | .compound c0 :: btl, _ => exact ⟨c0, btl, rfl⟩
+    match a, hl, hP, hw with
+    | [], _, _, hw => simp [walk] at hw
+    | .comb _ :: _, _, _, hw => simp [walk] at hw
+    | [.compound c1], _, hP, hw =>
+      unfold walk at hw
+      rw [hbe] at hw
+      simp only at hw
+      rw [← hbe] at hw
+      split at hw
+      · rename_i d hlast
+        simp only [Bool.false_or, Bool.and_eq_true] at hw
+        have hsplit := getLast_split b _ hlast
+        rw [hsplit] at hb
+        obtain ⟨qD, h1, h2, h3, h4⟩ := skip_prefix d [] p _ b.dropLast q (Nat.le_refl _) hb
+        obtain ⟨e, hd⟩ := (LX_single _ _ _).1 h1
+        subst e
+        refine ⟨qD, (LX_single _ _ _).2 ⟨rfl, hsup c1 d _ qD (hP c1 (by simp)) hw.2 hd⟩, ?_⟩
+        exact relOK_of_skip hw.1 h2 h3 h4
+      · cases hw
+    | .compound c1 :: .comb cb1 :: a', hl, hP, hw =>
+      unfold walk at hw
+      rw [hbe] at hw
+      simp only at hw
+      rw [← hbe] at hw
+      split at hw
+      · cases hw
+      · split at hw
+        · cases hw
+        · rename_i sk d brest hscan
+          split at hw
+          · cases hw
+          · rename_i hok
+            have hok : okSkip prev sk = true := by simpa using hok
+            obtain ⟨sk', e1, e2, e3, e4⟩ := scan_spec sup c1 b [] sk d brest hscan
+            simp only [List.nil_append] at e1; subst e1
+            split at hw
+            · rename_i cb2 brest'
+              split at hw
+              · cases hw
+              · rename_i hcompat
+                split at hw
+                · cases hw
+                · rw [e2] at hb
+                  obtain ⟨qD, h1, h2, h3, h4⟩ := skip_prefix d _ p _ sk q (Nat.le_refl _) hb
+                  obtain ⟨hd, q2, hq2, hrest⟩ := (LX_comb _ _ _ _ _).1 h1
+                  have hlen : a'.length ≤ n := by simp only [List.length_cons] at hl; omega
+                  obtain ⟨q2', hl', hrel⟩ := ih a' (some cb1.rel) brest' hlen
+                    (fun c hc => hP c (by simp [hc])) hw q2 p hrest
+                  refine ⟨qD, (LX_comb _ _ _ _ _).2 ⟨hsup c1 d _ qD (hP c1 (by simp)) e3 hd, q2', ?_, hl'⟩,
+                    relOK_of_skip hok h2 h3 h4⟩
+                  cases cb1 with
+                  | child =>
+                    simp only [Comb.rel, RelOK] at hrel ⊢
+                    subst hrel
+                    cases cb2 <;> simp [combClash] at hcompat
+                    exact hq2
+                  | next =>
+                    simp only [Comb.rel, RelOK] at hrel ⊢
+                    subst hrel
+                    cases cb2 <;> simp [combClash] at hcompat
+                    exact hq2
+                  | later =>
+                    simp only [Comb.rel, RelOK] at hrel ⊢
+                    have : cb2 ≠ .child := by
+                      intro e; subst e; simp [combClash] at hcompat
+                    exact later_of_sib this hrel hq2
+            · cases hw
+    | .compound c1 :: .compound c2 :: a'', hl, hP, hw =>
+      unfold walk at hw
+      rw [hbe] at hw
+      simp only at hw
+      rw [← hbe] at hw
+      split at hw
+      · cases hw
+      · split at hw
+        · cases hw
+        · rename_i sk d brest hscan
+          split at hw
+          · cases hw
+          · rename_i hok
+            have hok : okSkip prev sk = true := by simpa using hok
+            obtain ⟨sk', e1, e2, e3, e4⟩ := scan_spec sup c1 b [] sk d brest hscan
+            simp only [List.nil_append] at e1; subst e1
+            rw [e2] at hb
+            obtain ⟨qD, h1, h2, h3, h4⟩ := skip_prefix d _ p _ sk q (Nat.le_refl _) hb
+            have hlen : (Component.compound c2 :: a'').length ≤ n := by
+              simp only [List.length_cons] at hl ⊢; omega
+            have hP' : ∀ c, Component.compound c ∈ (Component.compound c2 :: a'') → P c :=
+              fun c hc => hP c (List.mem_cons_of_mem _ hc)
+            split at hw
+            · rename_i cb2 brest'
+              split at hw
+              · cases hw
+              · rename_i hcb
+                have hcb : cb2 = .child := by simpa using hcb
+                subst hcb
+                obtain ⟨hd, q2, hq2, hrest⟩ := (LX_comb _ _ _ _ _).1 h1
+                obtain ⟨q2', hl', hrel⟩ := ih _ (some .desc) brest' hlen hP' hw q2 p hrest
+                exact ⟨qD, (LX_desc _ _ _ _ _).2 ⟨hsup c1 d _ qD (hP c1 (by simp)) e3 hd, q2',
+                  desc_of_any hrel (Or.inr hq2), hl'⟩, relOK_of_skip hok h2 h3 h4⟩
+            · rename_i hnc
+              match brest, e4, hnc, h1, hw with
+              | [], e4, _, _, _ => exact absurd rfl e4
+              | .comb cb :: r, _, hnc, _, _ => exact absurd rfl (hnc cb r)
+              | .compound e :: r, _, _, h1, hw =>
+                obtain ⟨hd, q2, hq2, hrest⟩ := (LX_desc _ _ _ _ _).1 h1
+                obtain ⟨q2', hl', hrel⟩ := ih _ (some .desc) _ hlen hP' hw q2 p hrest
+                exact ⟨qD, (LX_desc _ _ _ _ _).2 ⟨hsup c1 d _ qD (hP c1 (by simp)) e3 hd, q2',
+                  desc_of_any hrel (Or.inl hq2), hl'⟩, relOK_of_skip hok h2 h3 h4⟩
+
+/-! ### reflexivity -/
+
+theorem superCompound0_refl (A : Compound) : superCompound0 A A = true := by
+  have h : ∀ s, s ∈ A → simpleSuperOfCompound s A = true := by
+    intro s hs
+    unfold simpleSuperOfCompound
+    rw [List.any_eq_true]
+    exact ⟨s, hs, by simp⟩
+  unfold superCompound0
+  simp only [Bool.and_eq_true, List.all_eq_true]
+  refine ⟨h, ?_⟩
+  intro t ht
+  cases t <;> simp
+  exact h _ ht
+
+theorem superCompound_eq0 (f : Nat) (af : Bool) (A B : Compound) (ps : Complex) (h : noSelC A = true) :
+    superCompound (f + 1) af A B ps = superCompound0 A B := by
+  unfold superCompound superCompound0
+  congr 1
+  rw [Bool.eq_iff_iff]
+  simp only [List.all_eq_true]
+  constructor <;> intro hh s hs <;> have h1 := hh s hs <;> have h2 := (List.all_eq_true.1 h) s hs <;>
+    cases s <;> simp_all [Simple.isSel]
+
+theorem okSkip_nil (prev : Option Rel) : okSkip prev [] = true := by
+  cases prev with
+  | none => rfl
+  | some r => cases r <;> simp [okSkip, sibChain]
+
+theorem combClash_self (cb : Comb) : combClash cb cb = false := by cases cb <;> simp [combClash]
+
+theorem walk_refl (af : Bool) (sup : Compound → Compound → Complex → Bool) :
+    ∀ (n : Nat) (a : Complex) (prev : Option Rel), a.length ≤ n → (fwd a).isSome = true →
+      (∀ c, Component.compound c ∈ a → ∀ ps, sup c c ps = true) → walk af sup prev a a = true := by
+  intro n
+  induction n with
+  | zero =>
+    intro a prev hl hf
+    have : a = [] := List.eq_nil_of_length_eq_zero (Nat.le_zero.1 hl)
+    subst this; simp [fwd] at hf
+  | succ n ih =>
+    intro a prev hl hf hs
+    match a, hl, hf, hs with
+    | [], _, hf, _ => simp [fwd] at hf
+    | .comb _ :: _, _, hf, _ => simp [fwd] at hf
+    | [.compound c], _, _, hs =>
+      unfold walk
+      simp [okSkip_nil, hs c (by simp)]
+    | .compound c :: .comb cb :: a', hl, hf, hs =>
+      have hf' : (fwd a').isSome = true := by
+        simp only [fwd] at hf
+        cases h : fwd a' <;> simp_all
+      obtain ⟨x, xs, hx⟩ : ∃ x xs, a' = x :: xs := by
+        cases a' with
+        | nil => simp [fwd] at hf'
+        | cons x xs => exact ⟨x, xs, rfl⟩
+      have hlen : a'.length ≤ n := by simp only [List.length_cons] at hl; omega
+      have hrec := ih a' (some cb.rel) hlen hf' (fun c hc => hs c (by simp [hc]))
+      unfold walk
+      simp only [List.length_cons, scan, hs c (by simp), if_true]
+      simp [okSkip_nil, combClash_self, hrec]
+      omega
+    | .compound c :: .compound c2 :: a'', hl, hf, hs =>
+      have hf' : (fwd (.compound c2 :: a'')).isSome = true := by
+        simp only [fwd] at hf
+        cases h : fwd (.compound c2 :: a'') <;> simp_all
+      have hlen : (Component.compound c2 :: a'').length ≤ n := by simp only [List.length_cons] at hl ⊢; omega
+      have hrec := ih _ (some .desc) hlen hf' (fun c' hc => hs c' (List.mem_cons_of_mem _ hc))
+      unfold walk
+      simp only [List.length_cons, scan, hs c (by simp), if_true]
+      simp [okSkip_nil, hrec]
+
+theorem fwd_last (A : Complex) : (fwd A).isSome = true → ∃ c, A.getLast? = some (.compound c) := by
+  fun_induction fwd A with
+  | case1 => simp
+  | case2 c => intro _; exact ⟨c, rfl⟩
+  | case3 c cb rest d ds h ih =>
+    intro _
+    obtain ⟨c', hc'⟩ := ih (by simp [h])
+    refine ⟨c', ?_⟩
+    cases rest with
+    | nil => simp at hc'
+    | cons x xs => simpa [List.getLast?_cons_cons] using hc'
+  | case4 c cb rest h ih => simp
+  | case5 c d rest d' ds h ih =>
+    intro _
+    obtain ⟨c', hc'⟩ := ih (by simp [h])
+    exact ⟨c', by simpa [List.getLast?_cons_cons] using hc'⟩
+  | case6 c d rest h ih => simp
+  | case7 => simp
+
+theorem lastIsComb_of_fwd (A : Complex) (h : (fwd A).isSome = true) : lastIsComb A = false := by
+  obtain ⟨c, hc⟩ := fwd_last A h
+  simp [lastIsComb, hc]
+
 end Grass.Selector
